@@ -267,7 +267,8 @@ Print Assumptions C12_example.
 Theorem C12_transform_state_isolated :
   forall c cfg key evs s,
     pt_copies cfg -> pt_sys_run c cfg key (pt_sys_init c) evs = Some s ->
-    Forall (fun e => snd e = transform_parse_time (pt_local_off cfg) (fst e) /                     forall g0 ref0, snd e = snd (pt_apply cfg g0 pt_init (fst e) ref0)) (xs_log s).
+    Forall (fun e => snd e = transform_parse_time (pt_local_off cfg) (fst e) /\
+                     forall g0 ref0, snd e = snd (pt_apply cfg g0 pt_init (fst e) ref0)) (xs_log s).
 Proof. exact pt_history_isolated. Qed.
 Print Assumptions C12_transform_state_isolated.
 
@@ -276,10 +277,14 @@ Print Assumptions C12_transform_state_isolated.
    the stateless transform, and the instance remains one of copies; the call changes nothing of the pipeline state but the
    record's timestamp. *)
 Theorem C12_transform_state_one_call :
-  (forall cfg, pt_inv cfg pt_init) /  (forall cfg g st v ref st' r, pt_copies cfg -> pt_inv cfg st -> pt_apply cfg g st v ref = (st', r) ->
-     r = transform_parse_time (pt_local_off cfg) v /\ pt_inv cfg st') /  (forall cfg g st h key st' r v g', pt_transform cfg g st h key = Some (st', r, v, g') ->
-     g' = match r with TpSet u n => pt_set_ts g h (pt_ts_code u n) | _ => g end) /  (forall g h ts, let g' := pt_set_ts g h ts in
-     g_bufs g' = g_bufs g /\ g_cfg g' = g_cfg g /\ g_dirty g' = g_dirty g /\ g_out g' = g_out g /\ g_log g' = g_log g /     g_status g' = g_status g /\ g_next_rid g' = g_next_rid g /\ map pt_slot_rest (g_slots g') = map pt_slot_rest (g_slots g)).
+  (forall cfg, pt_inv cfg pt_init) /\
+  (forall cfg g st v ref st' r, pt_copies cfg -> pt_inv cfg st -> pt_apply cfg g st v ref = (st', r) ->
+     r = transform_parse_time (pt_local_off cfg) v /\ pt_inv cfg st') /\
+  (forall cfg g st h key st' r v g', pt_transform cfg g st h key = Some (st', r, v, g') ->
+     g' = match r with TpSet u n => pt_set_ts g h (pt_ts_code u n) | _ => g end) /\
+  (forall g h ts, let g' := pt_set_ts g h ts in
+     g_bufs g' = g_bufs g /\ g_cfg g' = g_cfg g /\ g_dirty g' = g_dirty g /\ g_out g' = g_out g /\ g_log g' = g_log g /\
+     g_status g' = g_status g /\ g_next_rid g' = g_next_rid g /\ map pt_slot_rest (g_slots g') = map pt_slot_rest (g_slots g)).
 Proof. exact (conj pt_inv_init (conj pt_apply_isolated (conj pt_transform_ts pt_set_ts_frame))). Qed.
 Print Assumptions C12_transform_state_one_call.
 
@@ -288,7 +293,8 @@ Print Assumptions C12_transform_state_one_call.
    buffer; the remembered string now reads B's bytes, the comparison is true and B is given A's instant - in the result and
    in the serialized output.  Alone, B gets 1565866247 (10:50:47Z). *)
 Theorem C12_transform_state_last_value_ref_refuted :
-  transform_parse_time 0 (firstn 25 (skipn 7 xw_rec_b)) = TpSet 1565866247 0 /  xw_run (xw_cfg KeepCopy (Some KeepRef) (fun _ => 0%N)) xw_rec_b
+  transform_parse_time 0 (firstn 25 (skipn 7 xw_rec_b)) = TpSet 1565866247 0 /\
+  xw_run (xw_cfg KeepCopy (Some KeepRef) (fun _ => 0%N)) xw_rec_b
     = Some ([TpSet 1565873446 0; TpSet 1565873446 0], [1565873446000000000; 1565873446000000000]%Z).
 Proof. exact (conj (proj2 xw_alone) xw_last_ref_run). Qed.
 Print Assumptions C12_transform_state_last_value_ref_refuted.
@@ -299,7 +305,8 @@ Print Assumptions C12_transform_state_last_value_ref_refuted.
    found: the defect needs a collision (reproduced on the real code: 51 of 3000 pooled records with 1500 distinct zones). *)
 Theorem C12_transform_state_zone_key_ref_refuted :
   xw_run (xw_cfg KeepRef None (fun _ => 0%N)) xw_rec_b
-    = Some ([TpSet 1565873446 0; TpSet 1565873447 0], [1565873446000000000; 1565873447000000000]%Z) /  xw_run (xw_cfg KeepRef None (fun b => N.of_nat (length b) + nth 2 b 0)%N) xw_rec_b
+    = Some ([TpSet 1565873446 0; TpSet 1565873447 0], [1565873446000000000; 1565873447000000000]%Z) /\
+  xw_run (xw_cfg KeepRef None (fun b => N.of_nat (length b) + nth 2 b 0)%N) xw_rec_b
     = Some ([TpSet 1565873446 0; TpSet 1565866247 0], [1565873446000000000; 1565866247000000000]%Z).
 Proof. exact (conj xw_zone_ref_run xw_zone_ref_no_collision). Qed.
 Print Assumptions C12_transform_state_zone_key_ref_refuted.
@@ -308,8 +315,10 @@ Print Assumptions C12_transform_state_zone_key_ref_refuted.
    filing function (everything collides); on the same two-record history with struct and buffer reuse both records get
    their own instants, in the results and in the serialized outputs. *)
 Theorem C12_transform_state_example :
-  pt_copies (xw_cfg KeepCopy None (fun _ => 0%N)) /\ pt_copies (xw_cfg KeepCopy (Some KeepCopy) (fun _ => 0%N)) /  xw_run (xw_cfg KeepCopy None (fun _ => 0%N)) xw_rec_b
-    = Some ([TpSet 1565873446 0; TpSet 1565866247 0], [1565873446000000000; 1565866247000000000]%Z) /  xw_run (xw_cfg KeepCopy (Some KeepCopy) (fun _ => 0%N)) xw_rec_b
+  pt_copies (xw_cfg KeepCopy None (fun _ => 0%N)) /\ pt_copies (xw_cfg KeepCopy (Some KeepCopy) (fun _ => 0%N)) /\
+  xw_run (xw_cfg KeepCopy None (fun _ => 0%N)) xw_rec_b
+    = Some ([TpSet 1565873446 0; TpSet 1565866247 0], [1565873446000000000; 1565866247000000000]%Z) /\
+  xw_run (xw_cfg KeepCopy (Some KeepCopy) (fun _ => 0%N)) xw_rec_b
     = Some ([TpSet 1565873446 0; TpSet 1565866247 0], [1565873446000000000; 1565866247000000000]%Z).
 Proof. exact xw_copy_run. Qed.
 Print Assumptions C12_transform_state_example.
